@@ -685,11 +685,13 @@ impl Fiber {
     // grab the appropriate exception handler
     let exception_handler = match self.exception_handler() {
       Some(exception_handler) => {
-        let bottom_frame = bottom_frame.unwrap_or(0);
-        if exception_handler.call_frame_depth() >= bottom_frame {
-          exception_handler
-        } else {
-          return UnwindResult::UnwindStopped;
+        // frames at or below the bottom frame belong to the code that called into native
+        // code, their handlers have to run in that executor once the native call has returned
+        match bottom_frame {
+          Some(bottom_frame) if exception_handler.call_frame_depth() <= bottom_frame => {
+            return UnwindResult::UnwindStopped;
+          },
+          _ => exception_handler,
         }
       },
       None => {
